@@ -113,6 +113,13 @@ def classes():
             rec = None
             hooks = None
 
+            def __init__(self, *a, **kw):
+                base.__init__(self, *a, **kw)
+                # the listener API next to the onMessage() override: proto.on("message", cb)
+                self.lrec = []
+                self.on("message", lambda payload, is_binary=False: self.lrec.append(
+                    (bytes(payload), bool(is_binary))))
+
             def _r(self, *ev):
                 if self.rec is None:
                     self.rec = []
@@ -224,11 +231,16 @@ class Endpoint:
     """one real endpoint; the harness is the peer"""
 
     def __init__(self, role, opts=None, compress=None, start=0.0, url="ws://localhost:9000",
-                 protocols=None, headers=None, hooks=None, proto_attrs=None, **fkw):
+                 protocols=None, headers=None, hooks=None, proto_attrs=None, proto_class_attrs=None,
+                 **fkw):
         self.role = role
         self.envobj = new_env(start)
         self.factory = make_factory(role, self.envobj, opts, url, protocols, headers, compress,
                                     **fkw)
+        if proto_class_attrs:
+            # per-protocol overrides of factory options declared on the protocol CLASS
+            base = self.factory.protocol
+            self.factory.protocol = type("Cfg" + base.__name__, (base,), dict(proto_class_attrs))
         E = envmod()
         self.conn = E.Conn(self.factory, role == "server", self.envobj)
         self.proto = self.conn.proto
